@@ -312,6 +312,7 @@ def rule_stages(model):
     fi = model.func('DT_Var', 'Var.render')
     body = fi.node.body
     idx = {}
+    null_if = None
 
     def mentions(node, text):
         return text in norm(node) if node is not None else False
@@ -331,8 +332,9 @@ def rule_stages(model):
                 idx['missing'] = i
             if isinstance(n, ast.If) and mentions(n.test, "'null' in") and \
                     any(isinstance(x, ast.Return) for x in n.body) and \
-                    'null' not in idx and n is st:
+                    'null' not in idx:
                 idx['null'] = i
+                null_if = n
         if isinstance(st, ast.If) and mentions(st.test, "'fmt' in"):
             idx.setdefault('fmt', i)
         if any(isinstance(n, ast.BinOp) and isinstance(n.op, ast.Mod) and
@@ -358,6 +360,14 @@ def rule_stages(model):
         raise AnalysisError(f'Var.render: stage markers not found: '
                             f'{missing}')
     r.instance(fi.where, ' < '.join(f'{k}@{idx[k]}' for k in order))
+    if idx['null'] == idx['fmt'] and null_if is not None:
+        # the null test lives inside the statement that applies fmt= (an
+        # elif arm of it): it is only reached when fmt= did not apply
+        r.finding(fi.where, 'null before fmt', 'the null= test is an arm '
+                  'of the fmt= statement: with both options on a null '
+                  'value the format is applied (and wins whenever it does '
+                  'not raise) instead of the null text', node=null_if,
+                  ctx=fi)
     for a, b in zip(order, order[1:]):
         r.instance(fi.where, f'{a} before {b}')
         if not idx[a] < idx[b] and not (a == 'missing' and
@@ -514,8 +524,61 @@ def rule_agreements(model):
                       node=chains[1], ctx=ren)
     elif len(chains) == 0:
         raise AnalysisError('Var.render: fmt dispatch not found')
+    # a position found by find()/rfind() is tested against "not found"
+    # (< 0, == -1), never against 0: position 0 is a hit
+    from .. import tables
+    seen = set()
+    for tname in ('modifiers', 'special_formats'):
+        for key, expr, res in tables.func_entries(model, m, tname) or ():
+            if not res or res[0] != 'func' or id(res[1]) in seen:
+                continue
+            f = res[1]
+            seen.add(id(f))
+            finds = set()
+            for n in own_nodes(f.node):
+                if isinstance(n, ast.Assign) and isinstance(
+                        n.targets[0], ast.Name) and _is_find(n.value):
+                    finds.add(n.targets[0].id)
+            for n in own_nodes(f.node):
+                bad = None
+                if isinstance(n, ast.Compare) and len(n.ops) == 1:
+                    l, op, rt = n.left, n.ops[0], n.comparators[0]
+                    if (_is_find(l) or (isinstance(l, ast.Name) and
+                                        l.id in finds)) and \
+                            isinstance(rt, ast.Constant) and \
+                            isinstance(rt.value, int):
+                        k = rt.value
+                        hit0 = {ast.Gt: 0 > k, ast.GtE: 0 >= k,
+                                ast.Lt: 0 < k, ast.LtE: 0 <= k,
+                                ast.Eq: 0 == k, ast.NotEq: 0 != k}.get(
+                                    type(op))
+                        hit5 = {ast.Gt: 5 > k, ast.GtE: 5 >= k,
+                                ast.Lt: 5 < k, ast.LtE: 5 <= k,
+                                ast.Eq: 5 == k, ast.NotEq: 5 != k}.get(
+                                    type(op))
+                        r.instance(f.where, n, 'found / not found'
+                                   if hit0 == hit5 else 'POSITION 0 APART')
+                        if hit0 is not None and hit0 != hit5:
+                            bad = n
+                elif isinstance(n, (ast.If, ast.IfExp, ast.While)) and (
+                        _is_find(n.test) or (
+                            isinstance(n.test, ast.Name) and
+                            n.test.id in finds)):
+                    bad = n.test
+                if bad is not None:
+                    r.finding(f.where, bad, f'{f.name}: a hit at position 0 '
+                              'is treated like "not found" (the result of '
+                              'find() is compared with 0 / used as a truth '
+                              'value): a value that STARTS with the '
+                              'character is left as it is', node=bad,
+                              ctx=f)
     r.require_floor(20)
     return r
+
+
+def _is_find(e):
+    return isinstance(e, ast.Call) and isinstance(e.func, ast.Attribute) \
+        and e.func.attr in ('find', 'rfind', 'index', 'rindex')
 
 
 def rule_membership(model):
